@@ -80,6 +80,11 @@ def _gen_shake(tier, rng):
   yield {'kind': 'shake', 'snips': [b'ABCD'.hex(), b'E'.hex()], 'L': 3}     # the docstring example
   yield {'kind': 'shake', 'snips': [bytes(range(256)).hex()], 'L': 7}
   yield {'kind': 'shake', 'snips': [b'\x00\x01\x02'.hex(), b'\xff'.hex()], 'L': 4}
+  # data bytes equal to the reserved label ids (PAD 0, BOS 1, EOS 2), to OOV (89) and VOCAB_SIZE (90): ordinary bytes
+  for sn in ([b'\x00'], [b'\x01'], [b'\x02'], [b'\x01\x02'], [b'\x02\x01\x00'], [b'a\x01b', b'\x02'], [b'\x00' * 5], [bytes([89, 90, 3])],
+             [b'\x01', b'', b'\x02', b'\x00'], [b'Y', b'Z\x01']):
+    for L in (2, 3):
+      yield {'kind': 'shake', 'snips': [b.hex() for b in sn], 'L': L}
   Ls = [2, 3, 4, 5, 8] if tier == 'quick' else [2, 3, 4, 5, 6, 7, 8, 9, 16]
   for L in Ls:
     for m in range(0, 3 if tier == 'quick' else 4):
@@ -111,7 +116,7 @@ def _gen_tok(tier, rng):
       ws = []
       for _ in range(k):
         r = rng.random()
-        ws.append(rng.choice(WORDS[:V]) if r < 0.7 else rng.choice(['zzz', 'Qx9', 'oov%d' % rng.randrange(50), WORDS[-1] + 'x']))
+        ws.append(rng.choice(WORDS[:V]) if r < 0.7 else rng.choice(['zzz', 'Qx9', 'oov%d' % rng.randrange(50), WORDS[-1] + 'x', '0', '1', '2', '3', '[PAD]', '<bos>', 'The', 'THE']))
       sents.append(ws)
     yield {'kind': 'tok', 'vocab': WORDS[:V], 'buckets': buckets, 'max_length': ml, 'sentences': sents}
 
@@ -137,9 +142,9 @@ def _gen_crops(tier, rng):
 
 
 def _gen_std(tier, rng):
-  sizes = [1, 2, 3, 8, 16, 24, 31, 32] if tier == 'quick' else list(range(1, 33))
+  sizes = [1, 2, 3, 7, 8, 16, 23, 24, 31, 32] if tier == 'quick' else list(range(1, 33))
   for ch in sizes:
-    for mode in ('random', 'lowcontrast', 'constant', 'onepixel', 'twolevel'):
+    for mode in ('random', 'lowcontrast', 'constant', 'onepixel', 'twolevel', 'twopixel', 'maxcontrast', 'halfhalf'):
       cw = ch if mode != 'random' else rng.choice(sizes)
       yield {'kind': 'std', 'ch': ch, 'cw': cw, 'mode': mode, 'seed': rng.randrange(2 ** 31), 'base': rng.choice([0, 1, 7, 128, 254, 255])}
 
@@ -161,6 +166,9 @@ def _gen_domain(tier, rng):
   for n in nums:
     for fmt in (25, 8):
       yield {'kind': 'domain', 'id': _eid(fmt, n, rng.randrange(100), rng)}
+  # the 16-hex-digit hash may itself contain "f" + 4 digits: only the writer field counts
+  for h, num in (('abcf2100deadbeef', 1), ('f2599f2100f21000', 2600), ('0f00000000f25990', 2100), ('ffffffffffff2100', 9999), ('f0001f9999f00000', 2599)):
+    yield {'kind': 'domain', 'id': f'{h}:f{num:04d}_{rng.randrange(100):02d}'.encode().hex()}
   for bad in (b'', b'f2100', b'f2100_1', b'f2100_123', b'x' * 24, b'x' * 26):
     yield {'kind': 'domain', 'id': bad.hex()}
 
@@ -179,6 +187,10 @@ def _gen_lmloss(tier, rng):
     m = ('shakespeare', 'stackoverflow')[i % 2]
     yield {'kind': 'lmloss', 'model': m, 'seed': rng.randrange(2 ** 31), 'B': B, 'T': T, 'pad_from': pads,
            'el': (None if m == 'shakespeare' else [None, 13.3, 2.0][i // 2 % 3]), 'ctx': i % 5 == 0}
+  # non-finite logits: on padded positions (must not matter) and on a real position (same answer alone / in the batch)
+  for i, (val, where) in enumerate([('nan', 'pad'), ('inf', 'pad'), ('-inf', 'pad'), ('nan', 'real'), ('-inf', 'both'), ('nan', 'both')]):
+    yield {'kind': 'lmloss', 'model': ('shakespeare', 'stackoverflow')[i % 2], 'seed': rng.randrange(2 ** 31), 'B': 3, 'T': 4,
+           'pad_from': [2, 4, 0] if i % 2 == 0 else [4, 1, 3], 'el': None, 'nonfinite': {'value': val, 'where': where}}
 
 
 def generate(tier, rng):
@@ -190,6 +202,12 @@ def generate(tier, rng):
 
 def _generate(tier, rng):
   yield {'kind': 'consts'}
+  # _build_look_up_table called directly: duplicates (last occurrence wins), empty vocabulary, bytes equal to reserved ids
+  for vocab, nr in ((b'aba', 3), (b'', 3), (b'', 0), (b'\x00\x01\x02', 3), (b'zzzz', 1), (bytes(range(256)), 0), (b'ab' * 40, 7),
+                    (b'abcabc\xffa', 0)):
+    yield {'kind': 'lut', 'vocab': vocab.hex(), 'nr': nr}
+  for i in range(2 if tier == 'quick' else 10):
+    yield {'kind': 'plainnorm', 'seed': rng.randrange(2 ** 31)}
   for c in _gen_lmloss(tier, rng):
     yield c
   for g in (_gen_shake, _gen_tok, _gen_crops, _gen_std, _gen_domain):
@@ -574,6 +592,17 @@ def _std_image(case):
     im = np.full((32, 32, 3), min(base, 254), np.uint8)
     im[16, 16, 1] += 1          # inside every centre crop
     return im
+  if mode == 'twopixel':          # two pixels differ by one: std just ABOVE 1/sqrt(N) whenever both are inside the crop
+    im = np.full((32, 32, 3), min(base, 254), np.uint8)
+    im[16, 16, 1] += 1
+    im[15, 15, 2] += 1
+    return im
+  if mode == 'maxcontrast':
+    return np.where(rng.rand(32, 32, 3) < 0.5, 0, 255).astype(np.uint8)
+  if mode == 'halfhalf':          # left half 0, right half 255 (centre crops stay half/half for even widths only)
+    im = np.zeros((32, 32, 3), np.uint8)
+    im[:, 16:, :] = 255
+    return im
   lo = rng.randint(0, 200)
   return np.where(rng.rand(32, 32, 3) < 0.3, lo, lo + rng.randint(1, 56)).astype(np.uint8)
 
@@ -699,6 +728,26 @@ def _run_misc(case):
   return {'status': 'ok', 'bad': bad}
 
 
+def _run_lut(case):
+  from fedjax.datasets import shakespeare
+  vocab = bytes.fromhex(case['vocab'])
+  table, vs = shakespeare._build_look_up_table(vocab, case['nr'])   # pylint: disable=protected-access
+  again, _ = shakespeare._build_look_up_table(vocab, num_reserved=case['nr'])   # pylint: disable=protected-access
+  return {'status': 'ok', 'table': [int(v) for v in table], 'vocab_size': int(vs), 'dtype': str(table.dtype), 'shape': list(table.shape),
+          'again': bool(np.array_equal(table, again) and not np.shares_memory(table, again)),
+          'module_table_intact': [int(v) for v in shakespeare.TABLE] == [_label(c) for c in range(256)]}
+
+
+def _run_plainnorm(case):
+  from fedjax.datasets import cifar100
+  rs = np.random.RandomState(case['seed'] % (2 ** 32))
+  img = rs.randint(0, 256, size=(2, 32, 32, 3)).astype(np.uint8)
+  img[0, 0, 0] = [0, 255, 128]
+  out = cifar100.preprocess_image(img, is_train=False)
+  samples = [[c, int(img[0, r, r, c]), str(Fraction(float(out[0, r, r, c])))] for r in range(0, 32, 7) for c in range(3)]
+  return {'status': 'ok', 'samples': samples, 'shape': list(out.shape), 'dtype': str(out.dtype)}
+
+
 def _row_model(name):
   from fedjax import models
   if name == 'emnist_stax_dense':
@@ -809,6 +858,14 @@ def _lmloss_batch(case):
   for r, st in enumerate(case['pad_from']):
     y[r, st:] = 0
   logits = (rng.randint(-8, 9, size=(B, T, V)) / 4.0).astype(np.float32)
+  nf = case.get('nonfinite')
+  if nf:
+    val = {'nan': np.nan, 'inf': np.inf, '-inf': -np.inf}[nf['value']]
+    for r in range(B):                       # at every PADDED position of every row: must not matter
+      if nf['where'] in ('pad', 'both'):
+        logits[r, case['pad_from'][r]:, (r + 3) % V] = val
+    if nf['where'] in ('real', 'both') and case['pad_from'][0] > 0:
+      logits[0, 0, int(y[0, 0])] = val       # the target logit of the first (real) token of row 0
   return y, logits
 
 
@@ -824,6 +881,10 @@ def _run_lmloss(case):
   y, logits = _lmloss_batch(case)
   batch = {'x': y.copy(), 'y': y}
   full = np.asarray(model.train_loss(batch, jnp.asarray(logits)), np.float64).reshape(-1)
+  base = None
+  if case.get('nonfinite'):                 # the same batch with finite logits at the padded positions
+    _, clean = _lmloss_batch({**case, 'nonfinite': {**case['nonfinite'], 'where': 'real' if case['nonfinite']['where'] in ('both', 'real') else 'none'}})
+    base = [float(v) for v in np.asarray(model.train_loss(batch, jnp.asarray(clean)), np.float64).reshape(-1)]
   alone, paired = [], []
   for i in range(len(y)):
     alone.append(float(np.asarray(model.train_loss({'x': y[i:i + 1], 'y': y[i:i + 1]}, jnp.asarray(logits[i:i + 1]))).reshape(-1)[0]))
@@ -840,9 +901,12 @@ def _run_lmloss(case):
   # per-token cross entropy, float64, from the logits alone
   l64 = logits.astype(np.float64)
   lse = np.log(np.exp(l64 - l64.max(-1, keepdims=True)).sum(-1)) + l64.max(-1)
-  ce = lse - np.take_along_axis(l64, y[..., None].astype(np.int64), axis=-1)[..., 0]
+  with np.errstate(all='ignore'):
+    ce = lse - np.take_along_axis(l64, y[..., None].astype(np.int64), axis=-1)[..., 0]
+  ce = np.where((y == 0) & ~np.isfinite(ce), 1e6, ce)       # at PAD targets the model must mask whatever stands there
   return {'status': 'ok', 'loss': [float(v) for v in full], 'alone': alone, 'paired': paired, 'y': y.tolist(),
-          'ce': [[str(Fraction(float(np.float32(v)))) for v in row] for row in ce], 'shape_ok': full.shape == (len(y),), 'ctx': ctx}
+          'ce': [[str(Fraction(float(np.float32(v)))) if np.isfinite(v) else '0' for v in row] for row in ce], 'shape_ok': full.shape == (len(y),), 'ctx': ctx, 'base': base,
+          'ce_finite': bool(np.all(np.isfinite(ce)))}
 
 
 def _run_tasks(case):
@@ -943,6 +1007,10 @@ def run(case):
       return _run_lmloss(case)
     if k == 'misc':
       return _run_misc(case)
+    if k == 'lut':
+      return _run_lut(case)
+    if k == 'plainnorm':
+      return _run_plainnorm(case)
     return _run_tasks(case)
 
 
@@ -973,6 +1041,14 @@ def _oracle_shake(case, obs):
     while f and f[-1] == PAD:
       f.pop()
     return f
+  # label by label first, so that the report names the byte that is mislabelled
+  for pos, want in enumerate(stream[1:]):
+    if pos < len(fy) and fy[pos] != want:
+      src = [c for s_ in snips for c in [None] + list(s_) + [None]][pos + 1]
+      if src is not None:
+        out.append(('shake-label', f'data byte 0x{src:02x} is labelled {fy[pos]}; its label is {want}' +
+                    (' (a byte equal to a reserved id PAD/BOS/EOS is ordinary out-of-vocabulary data)' if src <= 2 else '')))
+        break
   if strip(fx) != stream[:-1] or strip(fy) != stream[1:]:
     out.append(('shake-lossless', 'with padding removed x / y are not the begin/characters/end label stream (x = stream[:-1], y = stream[1:])'))
   n = max(len(stream) - 1, 0)
@@ -1176,6 +1252,31 @@ def oracle(case, obs):
     return _oracle_domain(case, obs)
   if k == 'misc':
     return [(f'misc-{case["which"]}', '; '.join(obs['bad']))] if obs['bad'] else []
+  if k == 'lut':
+    vocab, nr = bytes.fromhex(case['vocab']), case['nr']
+    want = [nr + vocab.rfind(bytes([c])) if bytes([c]) in vocab else nr + len(vocab) for c in range(256)]
+    if obs['table'] != want or obs['vocab_size'] != nr + len(vocab) + 1 or obs['dtype'] != 'int32' or obs['shape'] != [256]:
+      return [('lut-table', 'look-up table is not "vocab[i] -> num_reserved + i (last occurrence wins), others -> vocab_size - 1" as an int32 [256] array')]
+    if not obs['again'] or not obs['module_table_intact']:
+      return [('lut-impure', 'building a table again gives another result / shares memory / disturbed the module-level TABLE')]
+    return []
+  if k == 'plainnorm':
+    mean, std = [0.4914, 0.4822, 0.4465], [0.2023, 0.1994, 0.2010]
+    for c, v, o in obs['samples']:
+      ref = (v / 255 - mean[c]) / std[c]
+      if abs(float(Fraction(o)) - ref) > 1e-4 * (1 + abs(ref)):
+        return [('plain-normalisation', f'channel {c}: pixel {v} is normalised to {float(Fraction(o))}, (x/255 - mean)/std gives {ref}')]
+    return [] if obs['shape'] == [2, 32, 32, 3] and obs['dtype'] == 'float32' else [('plain-normalisation', 'shape / dtype')]
+  if k == 'lmloss' and case.get('nonfinite'):
+    cls = lambda v: 'nan' if v != v else 'inf' if v == math.inf else '-inf' if v == -math.inf else 'finite'
+    if not obs['shape_ok']:
+      return [(f'trainloss-rowdep-{case["model"]}', 'per-example training loss is not one value per row')]
+    for i, (a, b, c, d) in enumerate(zip(obs['loss'], obs['alone'], obs['paired'], obs['base'])):
+      if cls(a) != cls(b) or cls(a) != cls(c) or (cls(a) == 'finite' and (abs(a - b) > 1e-5 * (1 + abs(b)) or abs(c - b) > 1e-5 * (1 + abs(b)))):
+        return [(f'trainloss-nonfinite-{case["model"]}', f'row {i}: a non-finite logit gives loss {b} alone, {a} in the batch, {c} next to one other row')]
+      if cls(a) != cls(d) or (cls(a) == 'finite' and abs(a - d) > 1e-5 * (1 + abs(d))):
+        return [(f'trainloss-pad-leak-{case["model"]}', f'row {i}: a non-finite logit at a PADDED position changes the loss from {d} to {a}')]
+    return []
   if k == 'lmloss':
     if not obs['shape_ok'] or not all(math.isfinite(v) for v in obs['loss'] + obs['alone'] + obs['paired']):
       return [(f'trainloss-rowdep-{case["model"]}', 'per-example training loss is not one finite value per row (alone or inside a batch)')]
@@ -1282,12 +1383,18 @@ def encode(case, obs):
     c = f'KStd {obs["N"]} {obs["S1"]} {obs["S2"]} {_q(obs["s"])}'
     o = 'OStd ' + fw.clist([f'({v}, {_q(q)})' for v, q in obs['samples']])
   elif k == 'lmloss':
-    if not obs['shape_ok'] or not all(math.isfinite(v) for v in obs['loss']):
+    if not obs['shape_ok'] or not all(math.isfinite(v) for v in obs['loss']) or not obs.get('ce_finite', True):
       return None
     rows = fw.clist([f'({fw.clist([_q(v) for v in cr])}, {_zl(yr)})' for cr, yr in zip(obs['ce'], obs['y'])])
     el = 'None' if case.get('el') is None else f'(Some {_q(Fraction(float(case["el"])))})'
     c = f'KLoss {fw.cbool(case["model"] == "shakespeare")} {el} {rows}'
     o = 'OLoss ' + fw.clist([_q(Fraction(v)) for v in obs['loss']])
+  elif k == 'lut':
+    c = f'KLut {_zl(list(bytes.fromhex(case["vocab"])))} {fw.zlit(case["nr"])}'
+    o = f'OTable {_zl(obs["table"])} {fw.zlit(obs["vocab_size"])}'
+  elif k == 'plainnorm':
+    c = 'KPlainNorm'
+    o = 'ONorm ' + fw.clist([f'({cc}%nat, {v}, {_q(q)})' for cc, v, q in obs['samples']])
   elif k == 'domain':
     c = f'KDomain {_zl(list(bytes.fromhex(case["id"])))}'
     o = 'ORaise' if obs['status'] != 'ok' else f'OId {obs["d"]}'
